@@ -543,6 +543,22 @@ def r7(ctx, R):
                     or r in ("zipfile",) or nm == "ZipFile":
                 R.inst("%s: direct file operation %s" % (f.short, norm(c)[:40]))
                 R.bad(f, c, "the writer touches the file system directly instead of going through ziputil")
+    for nm in ("exists", "is_dir", "is_valid_archive_path"):
+        f = ctx.func("ziputil:" + nm)
+        R.inst("ziputil.%s: archive members are matched as whole path components (with '/')" % nm)
+        for c in q.calls(f, name="startswith"):
+            a = c.args[0] if c.args else None
+            if a is None or '"/"' not in ast.unparse(a).replace("'", '"'):
+                R.bad(f, c, "archive names are matched by plain string prefix: 'S/_data/rate' matches 'S/_data/rate_adj', "
+                            "so a missing member is reported as existing and reading fails")
+        for x in walk_local(f.node):
+            if isinstance(x, ast.Subscript) and isinstance(x.slice, ast.Slice) and x.slice.upper is not None \
+                    and isinstance(x.value, ast.Name) and x.value.id == "n":
+                if "+ 1" not in norm(x.slice.upper) and '"/"' not in ast.unparse(x.slice.upper).replace("'", '"'):
+                    R.bad(f, x, "archive name prefix is cut without room for the '/' separator")
+        if nm in ("exists", "is_dir") and not any(isinstance(x, ast.BinOp) and '"/"' in ast.unparse(x).replace("'", '"')
+                                                   for x in walk_local(f.node)):
+            R.bad(f, f.node, "directory test inside an archive does not use the '/' separator", stmt="archive + '/'")
     wf = ctx.func("ziputil:write_file")
     R.inst("ziputil.write_file: archive member when inside a zip, plain file otherwise, same callback")
     cbs = [c for c in q.calls(wf) if norm(c.func) == "callback"]
